@@ -9,6 +9,7 @@ re-executes the harness depth-first along recorded decision prefixes.
 import ast
 import builtins
 import fractions
+import importlib
 import math
 import os
 import sys
@@ -1263,6 +1264,12 @@ class Loader(object):
     def load(self, modname, extra_globals=None):
         if modname in self.mods:
             return self.mods[modname]
+        # make sure the real module and everything it imports are already bound to the real
+        # modules, so that the temporary sys.modules overlay below cannot leak into them
+        try:
+            importlib.import_module(modname)
+        except Exception:
+            pass
         rel = modname.replace('.', '/') + '.py'
         if not os.path.exists(os.path.join(REPO, rel)):
             rel = modname.replace('.', '/') + '/__init__.py'
